@@ -71,7 +71,8 @@ Definition update_sweep_line (act : list hedge) (e : hedge) : list hedge :=
 (* offsets: the values returned by HatchBuilder::next_offset, in call order; running out of the
    list stands for a pattern that returns a non-positive offset *)
 Record hstate := mkH { h_y : Q; h_ymax : Q; h_row : Z; h_act : list hedge; h_offs : list Q;
-                        h_out : list hseg; h_stop : bool }.
+                        h_out : list hseg; h_stop : bool;
+                        h_rows : list (Q * list hedge) }.   (* ghost: (y, active edges) at each hatch_line call *)
 
 (* `while y < limit { hatch_line; offset = next_offset; y += offset; if offset <= 0 return }` *)
 Fixpoint rows_until (fuel : nat) (limit : Q) (uvx uvy : Q) (s : hstate) : hstate :=
@@ -83,32 +84,39 @@ Fixpoint rows_until (fuel : nat) (limit : Q) (uvx uvy : Q) (s : hstate) : hstate
         let '(act, segs) := hatch_line (h_y s) uvx uvy (h_row s) (h_act s) in
         match h_offs s with
         | [] => mkH (h_y s) (h_ymax s) (h_row s + 1)%Z act [] (h_out s ++ segs) true
+                    (h_rows s ++ [(h_y s, h_act s)])
         | o :: rest =>
             let s' := mkH (fadd (h_y s) o) (h_ymax s) (h_row s + 1)%Z act rest (h_out s ++ segs)
-                          (Qle_bool o 0) in
+                          (Qle_bool o 0) (h_rows s ++ [(h_y s, h_act s)]) in
             rows_until f limit uvx uvy s'
         end
       else s
   end.
 
-Definition hatch (events : list hedge) (uvx uvy : Q) (offsets : list Q) : list hseg :=
+Definition hatch_run (events : list hedge) (uvx uvy : Q) (offsets : list Q) : option hstate :=
   match events, offsets with
-  | [], _ => []
-  | first :: _, [] => []          (* next_offset(0) unavailable: modelled as "no rows" *)
+  | [], _ => None
+  | first :: _, [] => None        (* next_offset(0) unavailable: modelled as "no rows" *)
   | first :: _, o0 :: offs =>
       let fuel := S (length offsets) in
       let y0 := fadd (py (fst first)) o0 in
-      let s0 := mkH y0 y0 0%Z [] offs [] false in
+      let s0 := mkH y0 y0 0%Z [] offs [] false [] in
       let s := fold_left (fun s e =>
                   if h_stop s then s
                   else
                     let s := rows_until fuel (py (fst e)) uvx uvy s in
                     if h_stop s then s
                     else mkH (h_y s) (Qmax (h_ymax s) (py (snd e))) (h_row s)
-                             (update_sweep_line (h_act s) e) (h_offs s) (h_out s) false)
+                             (update_sweep_line (h_act s) e) (h_offs s) (h_out s) false (h_rows s))
                 events s0 in
-      h_out (if h_stop s then s else rows_until fuel (h_ymax s) uvx uvy s)
+      Some (if h_stop s then s else rows_until fuel (h_ymax s) uvx uvy s)
   end.
+
+Definition hatch (events : list hedge) (uvx uvy : Q) (offsets : list Q) : list hseg :=
+  match hatch_run events uvx uvy offsets with Some s => h_out s | None => [] end.
+(* the rows that were hatched: (y, active edge list handed to hatch_line) *)
+Definition hatch_rows (events : list hedge) (uvx uvy : Q) (offsets : list Q) : list (Q * list hedge) :=
+  match hatch_run events uvx uvy offsets with Some s => h_rows s | None => [] end.
 
 End Hatch.
 
